@@ -12,27 +12,41 @@
 #include <stdlib.h>
 #include <errno.h>
 
+static tree_node_t *next_link(fstree_t *fs, tree_node_t *node)
+{
+	if (node->flags & FLAG_LINK_RESOVED)
+		return node->data.target_node;
+
+	return fstree_get_node_by_path(fs, fs->root, node->data.target,
+				       false, false);
+}
+
 static int resolve_link(fstree_t *fs, tree_node_t *node)
 {
-	tree_node_t *start = node;
+	tree_node_t *start = node, *slow = node;
+	size_t steps = 0;
 
 	for (;;) {
 		if (!S_ISLNK(node->mode) || !(node->flags & FLAG_LINK_IS_HARD))
 			break;
 
-		if (node->flags & FLAG_LINK_RESOVED) {
-			node = node->data.target_node;
-		} else {
-			node = fstree_get_node_by_path(fs, fs->root,
-						       node->data.target,
-						       false, false);
-			if (node == NULL)
-				return -1;
-		}
+		node = next_link(fs, node);
+		if (node == NULL)
+			return -1;
 
 		if (node == start) {
 			errno = EMLINK;
 			return -1;
+		}
+
+		/* detect a cycle that does not contain the start node */
+		if ((++steps & 1) == 0) {
+			slow = next_link(fs, slow);
+
+			if (slow == node) {
+				errno = EMLINK;
+				return -1;
+			}
 		}
 	}
 
